@@ -132,8 +132,8 @@ SetConsumer(s, c) == [pend EXCEPT !.consumer = (s :> c) @@ @]
 ConsumerOf(s) == IF s \in DOMAIN pend.consumer THEN pend.consumer[s] ELSE ""
 
 (* ------------------------------------------------------------------ caches *)
-NewCache(f) == [f |-> f, it |-> EmptyItems, ev |-> <<>>, lists |-> <<>>]
-Remember(ls, l) == IF Len(ls) >= 8 THEN Tail(ls) \o <<l>> ELSE ls \o <<l>>
+NewCache(f) == [f |-> f, it |-> EmptyItems, ev |-> <<>>, lists |-> <<>>, nlist |-> 0, when |-> <<>>, mark |-> 0]
+Remember(ls, l) == IF Len(ls) >= 32 THEN Tail(ls) \o <<l>> ELSE ls \o <<l>>
 RecentLists(c) == {caches[c].lists[j] : j \in DOMAIN caches[c].lists}
 
 \* readers in flight on cache c see every content the cache passes through until they return (C15)
@@ -188,7 +188,8 @@ EvCacheUpdate == /\ Report(UpdClass(A, X(1), X(2)), [cache |-> A, pre |-> caches
 EvCacheList == /\ Report(IF ~KnownList(X(1)) THEN "foreign-object"
                          ELSE IF ~ListOK(X(1)) \/ ItemsOf(X(1)) # caches[A].it THEN "list-not-snapshot" ELSE "",
                          [cache |-> A, spec |-> caches[A].it, listed |-> X(1)])
-               /\ caches' = [caches EXCEPT ![A].lists = Remember(@, IF KnownList(X(1)) THEN ItemsOf(X(1)) ELSE caches[A].it)]
+               /\ caches' = [caches EXCEPT ![A].lists = Remember(@, IF KnownList(X(1)) THEN ItemsOf(X(1)) ELSE caches[A].it),
+                                           ![A].when = Remember(@, caches[A].nlist + 1), ![A].nlist = @ + 1]
                /\ UNCHANGED <<buf, stages, pubs, fsubs, ctls, mons, pend, net>>
 
 EvCtlNew == /\ ctls' = (A :> [cache |-> X(1), sub |-> X(2), pub |-> X(3), watcher |-> X(5), ready |-> FALSE, nsync |-> 0, stopping |-> FALSE]) @@ ctls
@@ -211,7 +212,8 @@ EvCtlSynced ==
 
 EvCtlReady == /\ Report(IF ctls[A].nsync = 0 THEN "ready-before-sync" ELSE "", [ctl |-> A])
               /\ ctls' = [ctls EXCEPT ![A].ready = TRUE]
-              /\ UNCHANGED <<buf, caches, stages, pubs, fsubs, mons, pend, net>>
+              /\ caches' = [caches EXCEPT ![ctls[A].cache].mark = caches[ctls[A].cache].nlist]   \* listings from here on are "at or after readiness"
+              /\ UNCHANGED <<buf, stages, pubs, fsubs, mons, pend, net>>
 
 EvCtlUpdated ==
   LET c == ctls[A]  evs == X(2) IN
@@ -305,7 +307,8 @@ EvFsubReady ==
                     IF ~ok THEN "ready-unsynced" ELSE "">>),
             [fsub |-> A, spec |-> fs, cache |-> caches[fs.cache].it, filter |-> caches[fs.cache].f, parent |-> caches[pc].it])
   /\ fsubs' = [fsubs EXCEPT ![A].ready = TRUE]
-  /\ UNCHANGED <<buf, caches, stages, pubs, ctls, mons, pend, net>>
+  /\ caches' = [caches EXCEPT ![fs.cache].mark = caches[fs.cache].nlist]
+  /\ UNCHANGED <<buf, stages, pubs, ctls, mons, pend, net>>
 
 SameMeaning(f, g) == \A k \in Keys, l \in Labels : AcceptKL(f, k, l) = AcceptKL(g, k, l)
 
@@ -450,7 +453,10 @@ EvCb ==
                           IF m.inited \/ m.n > 0 THEN "initialize-not-first-or-twice" ELSE "",
                           IF ~IsReady(st) THEN "callback-before-ready" ELSE "",
                           IF R.mdone THEN "callback-after-done" ELSE "",
-                          IF KnownList(R.arg) /\ ItemsOf(R.arg) \notin RecentLists(CacheOf(st)) THEN "initialize-not-cache-content" ELSE "">>),
+                          \* OnInitialize gets a listing the cache actor produced at or after readiness
+                          IF KnownList(R.arg) /\ ~\E j \in DOMAIN caches[CacheOf(st)].lists :
+                                 caches[CacheOf(st)].lists[j] = ItemsOf(R.arg) /\ caches[CacheOf(st)].when[j] > caches[CacheOf(st)].mark
+                          THEN "initialize-not-cache-content" ELSE "">>),
                   [mon |-> A, arg |-> R.arg])
         /\ mons' = [mons EXCEPT ![A].inited = TRUE, ![A].active = "init", ![A].n = @ + 1]
         /\ UNCHANGED <<buf, caches, stages, pubs, fsubs, ctls, pend, net>>
